@@ -1169,3 +1169,29 @@ Definition ex_ops : list op :=
 
 (* the precondition on allocations is needed: registering an address twice breaks the count *)
 Definition bad_ops : list op := [OAlloc 8 false [8]; OAlloc 8 false [8]]%N.
+
+(* helpers for the non-vacuity examples (stated for an arbitrary state so that no conversion
+   ever has to evaluate a concrete run) *)
+Lemma mark_all_InvM hashf g : InvM hashf g -> Quiet g ->
+  let g' := set_slots g (smap setmark (slots g)) in
+  InvM hashf g' /\ Quiet g' /\ nitems g' = nitems g /\
+  (forall e, In e (entries (slots g)) -> Holds (slots g') (setmark e) /\ marked (setmark e) = true).
+Proof.
+  intros H Hq g'. split; [|split; [exact Hq|split; [reflexivity|]]].
+  - apply (InvM_PW hashf g); [exact H| |repeat split].
+    apply PW_smap. intros x; split; reflexivity.
+  - intros e He. split; [|reflexivity]. apply Holds_smap. exists e. split; [|reflexivity].
+    apply in_entries. exact He.
+Qed.
+
+Lemma add_pending_Inv hashf g q : Inv hashf g -> is_reg (slots g) q = false ->
+  let g' := set_pending g [Some q] in
+  Inv hashf g' /\ pending g' = [Some q] /\ nitems g' = nitems g /\ measure g' = S (nitems g).
+Proof.
+  intros [Hm Hcl] Hr g'. split; [|split; [reflexivity|split; [reflexivity|]]].
+  - split; [|exact Hcl]. destruct Hm. constructor; auto.
+    intros q0 [Hq0|[]] e He Hp. injection Hq0 as <-.
+    assert (is_reg (slots g) q = true); [|congruence].
+    unfold is_reg. apply existsb_exists. exists e. split; [apply in_entries; exact He|apply N.eqb_eq; exact Hp].
+  - unfold measure, cnt. simpl. lia.
+Qed.
